@@ -45,7 +45,8 @@ def Leaf.next : Leaf → Int → NextR Leaf
       | none => .ok (st', s + dur, false)
   | .unl dur fi, now =>
       let f := fi.getD (now + dur)
-      if now < f then .ok (.unl dur (some f), now, true) else .ok (.unl dur (some f), f, false)
+      -- never before its start `f - dur` (a composite starts a part in advance, at the finish time of the part before)
+      if now < f then .ok (.unl dur (some f), max now (f - dur), true) else .ok (.unl dur (some f), f, false)
 
 def Leaf.left : Leaf → Int → LeftR Leaf
   | .fin offs dur i st, _ => .ok (.fin offs dur i st, ((offs.length - i : Nat) : Int))
@@ -198,5 +199,65 @@ def buildList (now : Int) : (d : Nat) → List Tree → Except String (List (Lvl
       let xs ← buildList now d ts
       pure (x :: xs)
 end
+
+/-! ### one caller: a sequence of calls, each with its clock reading -/
+
+inductive SOp where
+  | start (t : Int)
+  | next
+  | left
+deriving Repr, DecidableEq
+
+inductive Obs where
+  | started
+  | tok (tx : Int) (ok : Bool)
+  | cnt (n : Int)
+  | err (msg : String)      -- a panic; the run stops there
+deriving Repr, DecidableEq
+
+def seqRun {σ : Type} (ops : Ops σ) : σ → List (SOp × Int) → List Obs
+  | _, [] => []
+  | s, (.start t, _) :: r =>
+    match ops.start s t with
+    | .ok s' => .started :: seqRun ops s' r
+    | .error e => [.err e]
+  | s, (.next, now) :: r =>
+    match ops.next s now with
+    | .ok (s', tx, ok) => .tok tx ok :: seqRun ops s' r
+    | .error e => [.err e]
+  | s, (.left, now) :: r =>
+    match ops.left s now with
+    | .ok (s', n) => .cnt n :: seqRun ops s' r
+    | .error e => [.err e]
+
+/-! ### `NewInstanceStep(from, to, step, stepDuration)` (core/schedule/instance_step.go) -/
+
+/-- the loop `for i := from + step; i <= to; i += step { append(NewConst(0, stepDuration), NewOnce(step)) }`;
+`fuel` bounds the number of iterations (`to + 1` is enough because `step ≥ 1`) -/
+def instanceStepLoop (to step : Nat) (dur : Int) : Nat → Nat → List Tree
+  | 0, _ => []
+  | fuel + 1, i =>
+    if i ≤ to then Tree.fin [] dur :: Tree.fin (List.replicate step 0) 0 :: instanceStepLoop to step dur fuel (i + step)
+    else []
+
+/-- `NewConst(0, d)` has no tokens and lasts `d`; `NewOnce(n)` has `n` tokens at offset 0 and lasts 0 -/
+def instanceStepTree (frm to step : Nat) (dur : Int) : Tree :=
+  Tree.comp (Tree.fin (List.replicate frm 0) 0 :: instanceStepLoop to step dur (to + 1) (frm + step))
+
+/-! ### `callbackOnFinishSchedule` (core/coreutil/schedule.go): `onFinishOnce.Do(onFinish)` after a `Next` that
+returned `!ok` and after a `Left` that returned 0 -/
+
+structure Cb where
+  fired : Bool := false     -- the sync.Once
+  calls : Nat := 0          -- how often `onFinish` ran
+deriving Repr, DecidableEq
+
+def finishObs : Obs → Bool
+  | .tok _ false => true
+  | .cnt n => n == 0
+  | _ => false
+
+def Cb.after (c : Cb) (o : Obs) : Cb :=
+  if finishObs o && !c.fired then ⟨true, c.calls + 1⟩ else c
 
 end Pandora.Model.C02
